@@ -322,4 +322,22 @@ V.append({"id": "threadedwriter-default-queue", "kind": "mutant", "props": ["C19
 B("file-destination-posonly", ["*"], [("_output.py", "    def __call__(self, message):\n        \"\"\"\n        @param message: A message dictionary.", "    def __call__(self, message, /):\n        \"\"\"\n        @param message: A message dictionary.")])
 M("generator-throw-by-method-value", ["C15", "C05", "C04"], "_generators.py", "                        value_out = gen.throw(*value_in)", "                        value_out = (lambda m, v: m(*v))(gen.throw, value_in)", "C15.inside")
 
+# --- sixth batch: the parser's value-type model is recognised on expression trees, not on source text
+B("tasklevel-hash-temporary", ["*"], [("_action.py", "        return hash(tuple(self._level))", "        key = tuple(self._level)\n        return hash(key)")])
+B("tasklevel-parent-len-test", ["*"], [("_action.py", "        if not self._level:\n            return None\n        return TaskLevel(level=self._level[:-1])",
+                                        "        if len(self._level) == 0:\n            return None\n        shorter = self._level[:-1]\n        return TaskLevel(shorter)")])
+B("tasklevel-eq-single-expression", ["*"], [("_action.py", "        if other.__class__ != TaskLevel:\n            return False\n        return self._level == other._level",
+                                             "        return other.__class__ == TaskLevel and other._level == self._level")])
+B("tasklevel-lt-mirrored", ["*"], [("_action.py", "        return self._level < other._level", "        return other._level > self._level")])
+B("validate-message-noteq", ["*"], [("_action.py", "        if not message.task_level.parent() == self.task_level:\n            raise WrongTaskLevel(self, message)",
+                                     "        parent_level = message.task_level.parent()\n        if parent_level != self.task_level:\n            raise WrongTaskLevel(self, message)")])
+B("add-child-inline-level", ["*"], [("_action.py", "        level = message.task_level\n        return self.transform((\"_children\", level), message)",
+                                     "        return self.transform((\"_children\", message.task_level), message)")])
+M("tasklevel-hash-of-length", ["C09", "C01", "C06"], "_action.py", "        return hash(tuple(self._level))", "        return hash(len(self._level))", ".model")
+M("tasklevel-eq-ignores-class", ["C09"], "_action.py", "        return self._level == other._level\n\n    def __ne__", "        return self._level is other._level\n\n    def __ne__", ".model")
+M("validate-message-level-inverted", ["C09", "C01"], "_action.py", "        if not message.task_level.parent() == self.task_level:\n            raise WrongTaskLevel(self, message)",
+  "        if message.task_level.parent() == self.task_level:\n            raise WrongTaskLevel(self, message)", ".model")
+M("validate-message-uuid-dropped", ["C09", "C01"], "_action.py", "        if message.task_uuid != self.task_uuid:\n            raise WrongTask(self, message)\n", "", ".model")
+M("written-message-level-from-uuid", ["C09"], "_message.py", "        return TaskLevel(level=self._logged_dict[TASK_LEVEL_FIELD])", "        return TaskLevel(level=self._logged_dict.get(TASK_LEVEL_FIELD, [1]))", ".model")
+
 VARIANTS = V
